@@ -90,6 +90,7 @@ type conductor struct {
 	lastID   int
 	closed   bool // Session.Close was called
 	degraded bool
+	adopted  bool // connects nobody predicted were adopted
 
 	maxConns, orphans, closedConns int64
 	stall                          string
@@ -261,8 +262,35 @@ func (c *conductor) poolConnIDs() []int {
 
 func (c *conductor) openSockets() int { return openSockets(c.node) }
 
+// adoptUnexpected: connects nobody predicted (more dials than the single filler of a pool may start). The
+// prediction is off from here on (degraded mode); the surplus connects are driven like the others so that what
+// they do to the pool is seen by the monitors (a pool above its size).
+func (c *conductor) adoptUnexpected() {
+	m := c.g.maxID()
+	if m <= c.lastID {
+		return
+	}
+	if !c.degraded {
+		c.degraded = true
+		c.stall = fmt.Sprintf("unexpected connect attempts %d..%d", c.lastID+1, m)
+		atomic.AddInt64(&tieStalls, 1)
+	}
+	c.adopted = true
+	p := c.cur
+	if p == nil && len(c.pools) > 0 {
+		p = c.pools[len(c.pools)-1]
+	}
+	for id := c.lastID + 1; id <= m; id++ {
+		c.owner[id] = p
+		p.inflight[id] = true
+		p.active = true
+	}
+	c.lastID = m
+}
+
 // observe: the registered pool, the open sockets, the connections held by closed pools; updates the monitors.
 func (c *conductor) observe() string {
+	c.adoptUnexpected()
 	cur := "-"
 	if c.cur != nil {
 		n, _, x, f := c.cur.h.State()
@@ -423,6 +451,29 @@ func (c *conductor) act(a string) bool {
 		}
 		c.cur.h.Pick()
 		c.trigger(c.cur)
+	case "burst": // several fill triggers at once: 32 goroutines released together call Pick
+		if c.cur == nil {
+			return false
+		}
+		var ready, done sync.WaitGroup
+		var gateN int32
+		h := c.cur.h
+		for i := 0; i < 32; i++ {
+			ready.Add(1)
+			done.Add(1)
+			go func() {
+				defer done.Done()
+				ready.Done()
+				for atomic.LoadInt32(&gateN) == 0 {
+				}
+				h.Pick()
+			}()
+		}
+		ready.Wait()
+		atomic.StoreInt32(&gateN, 1)
+		done.Wait()
+		c.trigger(c.cur)
+		c.fillBarrier() // every one of the started fill() calls has decided
 	case "down":
 		if c.cur == nil {
 			return false
@@ -599,6 +650,7 @@ func runPipeLabelled(label string, cfg pipeCfg, fixed []string, choose chooser, 
 	var acts, states []string
 	states = append(states, c.observe())
 	skips := 0
+	drained := false
 	for i := 0; !c.closed; i++ {
 		a := ""
 		if choose != nil {
@@ -616,6 +668,28 @@ func runPipeLabelled(label string, cfg pipeCfg, fixed []string, choose chooser, 
 		if a == "" {
 			a = "sclose"
 		}
+		if a == "sclose" && c.adopted && !drained {
+			// surplus connects were adopted: before the session is closed every connect in flight is answered
+			// step by step until it is over, so that the monitors see what the surplus does to the pool
+			drained = true
+			for n := 0; n < 200; n++ {
+				fl := c.inflight()
+				if len(fl) == 0 {
+					break
+				}
+				progressed := false
+				for _, id := range fl {
+					if c.act(fmt.Sprintf("ok%d", id)) {
+						progressed = true
+						acts = append(acts, fmt.Sprintf("ok%d", id))
+						states = append(states, c.observe())
+					}
+				}
+				if !progressed {
+					break
+				}
+			}
+		}
 		was := c.stall
 		if !c.act(a) {
 			skips++
@@ -627,11 +701,11 @@ func runPipeLabelled(label string, cfg pipeCfg, fixed []string, choose chooser, 
 		}
 		skips = 0
 		acts = append(acts, a)
+		st := c.observe()
 		if was == "" && c.stall != "" {
-			states = append(states, "stall:"+strings.ReplaceAll(c.stall, " ", "_"))
-		} else {
-			states = append(states, c.observe())
+			st = "stall:" + strings.ReplaceAll(c.stall, " ", "_")
 		}
+		states = append(states, st)
 	}
 	// whatever happened: leave nothing held, close the session, then the final monitors
 	c.sessionClose()
@@ -693,11 +767,14 @@ func genChooser(r *vh.Rng, cfg pipeCfg) chooser {
 	if r.Intn(3) == 0 {
 		depth = nst - 1 // the attempt waits for its last answer (the USE reply when a keyspace is configured)
 	}
-	mean := []string{"down", "down", "down+up", "down+up", "sclose", "sclose", "pclose", "err", "failother", "pick", "up", "none"}[r.Intn(12)]
+	mean := []string{"down", "down", "down+up", "down+up", "sclose", "sclose", "pclose", "err", "failother", "pick", "up", "none", "burst"}[r.Intn(13)]
 	phase := 0
 	target := 0
 	done := 0
 	var queue []string
+	// one schedule in eight starts by making the pool short and idle (every connect in flight fails) and then
+	// lets several fill triggers arrive at once
+	shortBurst := r.Intn(8) == 0
 	return func(c *conductor, step int) string {
 		if len(queue) > 0 {
 			a := queue[0]
@@ -706,6 +783,18 @@ func genChooser(r *vh.Rng, cfg pipeCfg) chooser {
 		}
 		fl := c.inflight()
 		pc := c.poolConnIDs()
+		if shortBurst {
+			if len(fl) > 0 {
+				return []string{"failE", "failR"}[r.Intn(2)] + strconv.Itoa(fl[0])
+			}
+			shortBurst = false
+			if c.willFill(c.cur) {
+				return "burst"
+			}
+		}
+		if phase == 2 && c.willFill(c.cur) && r.Intn(5) < 2 {
+			return "burst" // a short idle pool: the moment several triggers at once matter
+		}
 		switch phase {
 		case 0: // get an attempt in flight
 			if len(fl) == 0 {
@@ -778,7 +867,7 @@ func genChooser(r *vh.Rng, cfg pipeCfg) chooser {
 			return fmt.Sprintf("err%d", pc[r.Intn(len(pc))])
 		case x < 94:
 			if c.cur != nil {
-				return "pick"
+				return []string{"pick", "burst"}[r.Intn(2)]
 			}
 			return "up"
 		case x < 96 && c.cur != nil:
